@@ -208,7 +208,7 @@ def coq_property(ctx, prop_file=None, extra_targets=()):
     ctx.checker_cmd = "cd /verif/coq && make <cone of %s> && coqc -Q . AD %s  (Print Assumptions parsed)" % (pf, pf)
     if ctx.tier == "thorough" and ok:
         with Lock("coq"):
-            rc, cout = sh(["timeout", "1500", "coqchk", "-o", "-silent", "-Q", ".", "AD"] + ["AD." + os.path.splitext(d)[0].replace("/", ".") for d in sorted(set(deps))], cwd=COQ, timeout=1600)
+            rc, cout = sh(["timeout", "1500", "coqchk", "-o", "-silent", "-Q", ".", "AD"] + ["AD." + os.path.splitext(os.path.normpath(d))[0].replace("/", ".") for d in sorted(set(deps))], cwd=COQ, timeout=1600)
             ax = re.search(r"Axioms:\s*(.*?)(?:\n\*|\Z)", cout, re.S)
             ctx.oblige("coqchk -o on the cone: no axioms", rc == 0 and ax is not None and "<none>" in ax.group(1), cout[-300:])
             ctx.checker_cmd += " ; coqchk -o -silent"
